@@ -154,7 +154,7 @@ Print Assumptions centroid_reverse_invariant.
 
 Theorem length_reverse : forall (sq : Q -> Q) (g : geomT Q),
   (forall a b, a == b -> sq a == sq b) -> geom_length sq (geom_rev g) == geom_length sq g.
-Proof. exact length_rev_lemma. Qed.
+Proof. intros sq g Hsq. apply (length_rev_lemma sq Hsq g). Qed.
 Print Assumptions length_reverse.
 
 (* ForceCW (cw = true) / ForceCCW (cw = false) *)
@@ -301,9 +301,15 @@ Example ex_centroid_rectangle :
   oxy_eq (poly_centroid (MkPoly XY [ln [(2,1);(8,1);(8,5);(2,5);(2,1)]%Z])) (Some (5, 3)).
 Proof. vm_compute. split; reflexivity. Qed.
 (* the collection: areal members dominate; the far-away point and the line do not matter *)
-Example ex_centroid_coll : forall sq : Q -> Q,
-  oxy_eq (geom_centroid sq ex_coll) (Some ((20 * (16 # 5) + (9 # 2) * 11) / (49 # 2), (20 * 2 + (9 # 2) * 1) / (49 # 2))).
-Proof. intros sq. vm_compute. split; reflexivity. Qed.
+Definition ex_sq (q : Q) : Q := if Qeq_bool q 25 then 5 else 0.   (* a square root that is right on the one radicand used *)
+Example ex_centroid_coll :
+  oxy_eq (geom_centroid ex_sq ex_coll) (Some ((20 * (16 # 5) + (9 # 2) * 11) / (49 # 2), (20 * 2 + (9 # 2) * 1) / (49 # 2))).
+Proof. vm_compute. split; reflexivity. Qed.
+(* without the areal member the line decides: midpoint of (0,0)-(3,4), length 5 *)
+Example ex_centroid_coll_lineal :
+  (oxy_eq (geom_centroid ex_sq (GColl XY [GPoint (MkPoint XY (Some (v 100 100))); GLine (ln [(0,0);(3,4)]%Z); GPoly (MkPoly XY [])]))
+         (Some (3 # 2, 2)) /  geom_length ex_sq ex_coll == 5.
+Proof. vm_compute. repeat split; reflexivity. Qed.
 (* hypotheses are satisfiable by these values *)
 Example ex_hyps : geom_closed ex_coll = true /\ hdim ex_coll = 2%nat /\ is_empty ex_coll = false.
 Proof. vm_compute. repeat split; reflexivity. Qed.
